@@ -126,6 +126,7 @@ def gen_sem(rng):
                 ins[rng.randrange(nin)] = nenv - 1  # every node is live: it feeds the next one
                 nodes_m.append(["call", funcs_m[fi], ins])
                 stmts.append(["call", fi, ins])
+                nenv += funcs_s[fi]["nout"] - 1  # a call yields one value per function output
             else:
                 name, lab, ar = rng.choice(SEM_OPS)
                 ins = [rng.randrange(nenv) for _ in range(ar)]
@@ -141,12 +142,14 @@ def gen_sem(rng):
         nin = rng.choice([1, 2])
         idx = len(funcs_m)
         funcs_m.append(None)
-        funcs_s.append({"nin": nin})
+        funcs_s.append({"nin": nin, "nout": 1})
         nm, st, nenv = gen_nodes(nin, rng.randrange(1, 4), depth)
-        out = nenv - 1
+        # one or two outputs; the last one is the last node of the body (so the whole body is live)
+        outs = [nenv - 1] if rng.random() < 0.6 else [rng.randrange(nenv), nenv - 1]
         key = idx if rng.random() < 0.85 or idx == 0 else rng.randrange(idx)  # sometimes a colliding key
-        funcs_m[idx] = {"key": key, "body": nm, "out": out}
-        funcs_s[idx] = {"name": f"g{key}", "domain": "sem", "nin": nin, "nout": 1, "body": {"stmts": st, "outs": [out]}}
+        funcs_m[idx] = {"key": key, "body": nm, "outs": outs}
+        funcs_s[idx] = {"name": f"g{key}", "domain": "sem", "nin": nin, "nout": len(outs),
+                        "body": {"stmts": st, "outs": outs}}
         fdepth[idx] = 1 + max([fdepth[s[1]] for s in st if s[0] == "call"] or [0])
         return idx
 
